@@ -24,7 +24,8 @@ CLASSES = {
   'AnySink': dict(extern=True, path=None, bases=[], fields={'g_invoked': 'int'}, ghost=['g_invoked']),
   'ClientMessageSinkStack': dict(path='ClientMessageSinkStack', bases=['SinkStack'], fields={}),
   # a request/reply message: only its properties dictionary is visible to the sinks verified here
-  'Message': dict(extern=True, path=None, fields={'properties': 'Props'}, bases=[]),
+  'Message': dict(extern=True, path=None, fields={'properties': 'Props', 'public_properties': 'dict[str,any]', 'is_one_way': 'bool',
+                                                    'g_thrift': 'int', 'g_thrift_len': 'int'}, ghost=['g_thrift', 'g_thrift_len'], bases=[]),
   # message.properties: a dict used as a record with a few well-known keys
   'Props': dict(extern=True, path=None, bases=[], dictlike={
     '__Tag': ('tag', 'int?'), '__Deadline': ('deadline', 'real?'),
